@@ -329,6 +329,18 @@ def run_refill(case, ctx, mon):
     # lag-2048 repetition between consecutive batches
     rep = float(np.mean(np.concatenate(batches[1:-1]) == np.concatenate(batches[2:]))) if R >= 2 else 0.0
     mon.check(rep < 0.01, "no-lag-2048-repetition", fraction=rep)
+    # an update() interrupted by an unacceptable item must not hand the draws it already used to the next adds
+    s4 = mk(kind, 2**32 - 1, 15 if kind == "log8" else 1023, 1, 1)
+    s4.cms[:] = park
+    s4.rand_ptr = 100
+    try:
+        s4.update([key] * 50 + ["not-bytes"] + [key] * 10)
+        raised = False
+    except Exception:  # noqa: BLE001
+        raised = True
+    mon.check(raised, "update-with-an-unacceptable-item-raises", kind=kind)
+    mon.check(int(s4.rand_ptr) in (150, 100) and (int(s4.rand_ptr) == 150 or int(s4.n_added()) == 0), "draws-used-by-an-interrupted-update-are-not-served-again",
+              rand_ptr=int(s4.rand_ptr), n_added=int(s4.n_added()), kind=kind)
     # save/load must not hand the same unconsumed draws to several objects
     s.cms[:] = 0
     s.add(key, 40)
